@@ -54,6 +54,11 @@ REF_FCN REF_STATUS ref_grid_create(REF_GRID *ref_grid_ptr, REF_MPI ref_mpi) {
   ref_grid_partitioner(ref_grid) = REF_MIGRATE_RECOMMENDED;
   ref_grid_partitioner_seed(ref_grid) = 0;
   ref_grid_partitioner_full(ref_grid) = REF_FALSE;
+#ifdef NASA_REFINE_VERIF
+  /* verification knob: keep every rank active on tiny meshes */
+  if (NULL != getenv("REF_VERIF_PARTITIONER_FULL"))
+    ref_grid_partitioner_full(ref_grid) = REF_TRUE;
+#endif
 
   ref_grid_meshb_version(ref_grid) = 0;
   ref_grid_coordinate_system(ref_grid) = REF_GRID_XBYRZU;
